@@ -5,6 +5,7 @@ import (
 	"context"
 	"encoding/json"
 	"fmt"
+	"sort"
 	"strings"
 	"testing"
 
@@ -21,6 +22,7 @@ const c12Rule = "cases = one relay (real NewRelay behind httptest, loopback WebS
 
 type frame struct {
 	Class  string `json:"class"`
+	Frags  []int  `json:"fragment_cuts,omitempty"`
 	Binary bool   `json:"binary,omitempty"`
 	Text   string `json:"text"`
 	Valid  bool   `json:"valid"`
@@ -52,9 +54,21 @@ func drawFrame(t *rapid.T, label string, genuine *[]*mocrelay.Event) frame {
 	render := func(doc gen.J) string {
 		return gen.Render(doc, &gen.RenderOpts{T: t, Whitespace: rapid.IntRange(0, 3).Draw(t, label+"ws") == 0, EscapeVar: rapid.IntRange(0, 5).Draw(t, label+"esc") == 0})
 	}
-	evDoc := func(e *mocrelay.Event) gen.JArr { return gen.JArr{gen.JStr("EVENT"), gen.WireEventDoc(t, e, label+"doc.")} }
-	k := rapid.IntRange(0, 19).Draw(t, label+"class")
+	evDoc := func(e *mocrelay.Event) gen.JArr {
+		return gen.JArr{gen.JStr("EVENT"), gen.WireEventDoc(t, e, label+"doc.")}
+	}
+	k := rapid.IntRange(0, 21).Draw(t, label+"class")
 	switch {
+	case k == 20: // large valid EVENT (tens of kilobytes, still inside the size limit)
+		e := &mocrelay.Event{Kind: 1, CreatedAt: 1700000000, Tags: []mocrelay.Tag{}, Content: strings.Repeat(rapid.SampledFrom([]string{"x", "é", "<>&"}).Draw(t, label+"unit"), rapid.IntRange(12000, 28000).Draw(t, label+"biglen"))}
+		gen.Sign(e, gen.Keys[rapid.IntRange(0, gen.NKeys-1).Draw(t, label+"key")])
+		*genuine = append(*genuine, e)
+		m := &gen.WireMsg{Label: "EVENT", Event: e}
+		m.Doc = gen.JArr{gen.JStr("EVENT"), gen.WireEventDoc(t, e, label+"doc.")}
+		return frame{Class: "valid:large-EVENT", Text: gen.Render(m.Doc, nil), Valid: true, norm: normOfWire(m)}
+	case k == 21: // large invalid message: the rejection may echo it
+		junk := strings.Repeat("ab", rapid.IntRange(17000, 40000).Draw(t, label+"junklen"))
+		return frame{Class: "corrupt:large-invalid", Text: `["REQ","big",{"ids":["` + junk + `"]}]`, subID: "big"}
 	case k < 7: // valid
 		m := gen.WireClientMsg(t, "", true)
 		if m.Label == "EVENT" {
@@ -245,7 +259,19 @@ func TestC12Session(t *testing.T) {
 			n := rapid.IntRange(1, 25).Draw(t, fmt.Sprintf("c%d.nframes", ci))
 			var frames []frame
 			for i := 0; i < n; i++ {
-				frames = append(frames, drawFrame(t, fmt.Sprintf("c%d.f%d.", ci, i), &genuine))
+				f := drawFrame(t, fmt.Sprintf("c%d.f%d.", ci, i), &genuine)
+				if len(f.Text) >= 2 && rapid.IntRange(0, 5).Draw(t, fmt.Sprintf("c%d.f%d.frag?", ci, i)) == 0 {
+					nc := rapid.IntRange(1, 3).Draw(t, fmt.Sprintf("c%d.f%d.nfrag", ci, i))
+					cuts := map[int]bool{}
+					for j := 0; j < nc; j++ {
+						cuts[rapid.IntRange(1, len(f.Text)-1).Draw(t, fmt.Sprintf("c%d.f%d.cut%d", ci, i, j))] = true
+					}
+					for c := range cuts {
+						f.Frags = append(f.Frags, c)
+					}
+					sort.Ints(f.Frags)
+				}
+				frames = append(frames, f)
 			}
 			allFrames = append(allFrames, frames)
 			desc := func() any { return map[string]any{"connection": ci, "frames": allFrames} }
@@ -255,7 +281,30 @@ func TestC12Session(t *testing.T) {
 				if f.Binary {
 					typ = websocket.MessageBinary
 				}
-				if err := c.Write(ctx, typ, []byte(f.Text)); err != nil {
+				var err error
+				if len(f.Frags) == 0 {
+					err = c.Write(ctx, typ, []byte(f.Text))
+				} else {
+					// one message sent as several WebSocket frames (continuation frames)
+					var w interface {
+						Write([]byte) (int, error)
+						Close() error
+					}
+					w, err = c.Writer(ctx, typ)
+					if err == nil {
+						prev := 0
+						for _, cut := range append(append([]int{}, f.Frags...), len(f.Text)) {
+							if _, err = w.Write([]byte(f.Text[prev:cut])); err != nil {
+								break
+							}
+							prev = cut
+						}
+						if cerr := w.Close(); err == nil {
+							err = cerr
+						}
+					}
+				}
+				if err != nil {
 					hx.Fail(t, ev.Failure{Property: "C12", Signature: "connection-lost", Clause: "the connection stays usable", Case: desc(), Observed: "write: " + err.Error()})
 				}
 			}
@@ -322,6 +371,9 @@ func TestC12Session(t *testing.T) {
 			var want []string
 			for i := 0; i < nout; i++ {
 				m := gen.ServerMsgValue(t, fmt.Sprintf("c%d.out%d.", ci, i))
+				if rapid.IntRange(0, 7).Draw(t, fmt.Sprintf("c%d.out%d.big?", ci, i)) == 0 {
+					m = mocrelay.NewServerNoticeMsg(strings.Repeat("n", rapid.IntRange(33000, 90000).Draw(t, fmt.Sprintf("c%d.out%d.biglen", ci, i))))
+				}
 				if n, is := m.(*mocrelay.ServerNoticeMsg); is && strings.HasPrefix(n.Message, sentinelPrefix) {
 					n.Message = "x"
 				}
